@@ -1,4 +1,5 @@
 import Driver.Sess
+import Driver.Concurrency
 import Driver.Field
 import Driver.Persist
 import Driver.Query
@@ -6,6 +7,7 @@ import Driver.Widcode
 open Driver
 
 def sessions : List (String × Sess) := [
+  ("concurrency", ConcurrencyS.sess),
   ("field", FieldS.sess),
   ("persist", PersistS.sess),
   ("query", QueryS.sess),
